@@ -33,6 +33,8 @@ class FunctionVC(Executor):
         self.dropped = set()
         from . import engine as _engine
         from .rewrite import HeapRewriter
+        from . import rewrite as _rewrite
+        _rewrite.PRIVATE.update(f"A_{a}" for a in getattr(self.model.decl, "PRIVATE_ATTRS", []))
         region = getattr(self.model.decl, "REGION_ATTRS", [])
         _engine.VIEW_NORMALIZER[0] = lambda term, st: HeapRewriter(st.pc, region, st.fresh).rw(term)
 
@@ -198,6 +200,11 @@ class FunctionVC(Executor):
 
     def call_repo_function(self, key, fobj, recv, args, kwargs, s: St, constructing=None):
         contract = self.project.contracts.get(key)
+        if contract is not None and contract.get("call_site") == "opaque":
+            # verified on its own under its stated call-site preconditions; callers keep treating it as an uncontracted
+            # callee (its preconditions are NOT discharged at the call sites: listed as an assumption)
+            self.assumptions.add(f"call-site preconditions of {key} assumed (contract not applied at call sites)")
+            contract = None
         if contract is None:
             name = key.split(":")[1]
             decl = self.model.opaque_decl(name)
@@ -279,6 +286,16 @@ class FunctionVC(Executor):
             if isinstance(v, Val) and strip_opt(v.ty)[0] == "any" and pty not in (ANY, BOOL, INT):
                 bound[pn] = Val(v.t, pty)  # the callee's declared parameter type (type correctness of the call is assumed)
         bound.update(self.contract_imports(contract))
+        # names the callee's clauses take from the CALLEE's module globals (e.g. an enum imported there)
+        try:
+            cmod = self.project.import_module("hypergraph." + key.split(":")[0][:-3].replace("/", "."))
+            texts = list(contract.get("requires", [])) + list(contract.get("ensures", [])) + [c for c in list(contract.get("raises", {}).values()) + list(contract.get("may_raise", {}).values()) if isinstance(c, str)]
+            for text in texts:
+                for n in ast.walk(parse_clause(text)):
+                    if isinstance(n, ast.Name) and n.id not in bound and n.id not in self.project.spec_functions and hasattr(cmod, n.id) and not hasattr(__import__("builtins"), n.id):
+                        bound[n.id] = lift(getattr(cmod, n.id), n.id)
+        except (ImportError, SyntaxError):
+            pass
         name = key.split(":")[1]
         s.trace.append(("call", name, dict(bound)))
         cs = St(list(s.pc), dict(bound), s.heap, [], list(s.fresh))
@@ -303,12 +320,12 @@ class FunctionVC(Executor):
         for cls, cond in contract.get("may_raise", {}).items():
             c = self.with_old(bound, pre_heap, lambda: self.eval_clause_assume(cond, cs)) if cond not in (True, "True") else z3.BoolVal(True)
             s_r = s.fork().assume(c)
-            if self.feasible(s_r):
+            if z3.is_true(c) or self.feasible(s_r):
                 REG.add(calls._exc_class(cls))
                 s_r.trace.append(("raised-by", name, cls))
                 yield s_r, Raised(cls, None, {"exact": cls not in ("Exception", "BaseException"), "by": name})
         s.assume(*normal_conds)
-        if not self.feasible(s):
+        if normal_conds and not self.feasible(s):
             return
         # frame: havoc what the callee may modify
         post = St(s.pc, dict(bound), s.heap, [], s.fresh)
@@ -362,11 +379,23 @@ class FunctionVC(Executor):
                 post.assume(self.eval_clause_assume(en, post))
         finally:
             self.env0, self.heap0 = saved_env0, saved_heap0
+        for fx in contract.get("fresh", []):
+            # callee-allocated component of the result: when not None it is distinct from every object known so far
+            fv = self.eval_pure(fx, post)
+            post.assume(z3.Implies(fv != smt.NONE, z3.And(z3.Not(smt.Alloc0(fv)), smt.SkFam(fv) == 0, *[fv != o for o in post.fresh])))
         s.heap = post.heap
         s.pc = post.pc
         s.fresh = post.fresh
         s.env["_ret_" + name.split(".")[-1]] = result  # ghost: result of the most recent call of this callee
         yield s, result
+
+    def eval_pure(self, text, s):
+        """z3 term of a pure expression over the state's environment (no effect on the state)."""
+        self.pure_depth += 1
+        try:
+            return to_v(self.ev1(parse_clause(text), s.fork()), s)
+        finally:
+            self.pure_depth -= 1
 
     def fresh_typed(self, ty, s):
         if ty == BOOL:
@@ -570,6 +599,10 @@ class FunctionVC(Executor):
                 s.env["result"] = result
                 for k, en in enumerate(c.get("ensures", [])):
                     self.oblige(f"ensures{k}.path{n_ret}", "post", s, self.eval_clause(en, s), {"clause": en})
+                for k, fx in enumerate(c.get("fresh", [])):
+                    # `fresh`: the denoted value is None or an object allocated by THIS call
+                    fv = self.eval_pure(fx, s)
+                    self.oblige(f"fresh{k}.path{n_ret}", "post", s, z3.Or(fv == smt.NONE, z3.Not(smt.Alloc0(fv))), {"clause": f"fresh({fx}): None or allocated during the call"})
                 if c.get("mustfail"):
                     # soundness guard (DESIGN 2.4 iii): a deliberately wrong postcondition must NOT be provable on every path
                     self.oblige(f"mustfail.path{n_ret}", "mustfail", s, self.eval_clause(c["mustfail"], s), {"clause": c["mustfail"]}, aux=True)
